@@ -9,7 +9,7 @@ PROP = "C15"
 
 STMT = b'fn f() {\n    info!("needs a reference");\n}\n'
 EXT_LISTS = [["rs"], ["rs", "rsx"], ["RS"], ["bak", "Rs"], ["rs", "txt", "x"]]
-SRC_FORMS = ["plain", "dot", "dotdot", "absolute", "nested", "trailing_slash"]
+SRC_FORMS = ["plain", "dot", "dotdot", "absolute", "nested", "trailing_slash", "symlink_dotdot"]
 CFG_FORMS = ["absolute", "relative", "bare"]
 CWDS = ["config_dir", "parent", "unrelated"]
 
@@ -68,12 +68,18 @@ def work(job):
     mode = "check" if rnd.random() < 0.35 else "edit"
     res = {"evaluations": 1, "nontrivial": [], "violations": [], "samples": [], "inconclusive": {}, "counters": {}}
     with core.Box(tag="c15") as box:
-        srcrel = "code/src" if sform == "nested" else "src"
+        srcrel = {"nested": "code/src", "symlink_dotdot": "realhome/src"}.get(sform, "src")
         build_layout.exts = exts
         src, names = build_layout(box, rnd, srcrel)
         os.makedirs(os.path.join(box.proj, "a"), exist_ok=True)
+        if sform == "symlink_dotdot":
+            # `lnk` is a symlink to a directory elsewhere: the operating system resolves lnk/.. to the parent of the link's
+            # *target* (proj/realhome), not to the directory that holds the link; a src/ next to the link is a trap
+            os.makedirs(os.path.join(box.proj, "realhome", "nest"), exist_ok=True)
+            os.symlink(os.path.join("realhome", "nest"), os.path.join(box.proj, "lnk"))
+            box.write("src/trap_next_to_the_link.rs", STMT)
         sd = {"plain": srcrel, "dot": "./" + srcrel, "dotdot": "a/../" + srcrel, "absolute": src, "nested": srcrel,
-              "trailing_slash": srcrel + "/"}[sform]
+              "trailing_slash": srcrel + "/", "symlink_dotdot": "lnk/../src"}[sform]
         cfgp = box.write("Breadlog.yaml", core.make_config(source_dir=sd, extensions=exts))
         # the invocation directory
         unrelated = os.path.join(box.root, "elsewhere", "deep")
@@ -100,6 +106,13 @@ def work(job):
         after = core.snapshot(box.root)
         root = box.root
         proj = box.proj
+
+        def real_rel(p):
+            """sandbox-relative name of the file a path string denotes (directory part resolved the way the OS does)"""
+            p = p if os.path.isabs(p) else os.path.join(cwd, p)
+            return os.path.relpath(os.path.join(os.path.realpath(os.path.dirname(p)), os.path.basename(p)), os.path.realpath(root))
+        opened_list = [real_rel(o["path"]) for o in (r.shim or []) if o["kind"] in ("openr", "openw") and o["path"].startswith(root + "/")]
+        reported_list = [real_rel(path) for path, line, col in r.missing()] if mode == "check" else []
     if r.panicked() or r.timed_out:
         res["inconclusive"]["run-crashed (C17's business)"] = 1
         return res
@@ -120,10 +133,7 @@ def work(job):
         kind = "created" if what == "created" else "modified"
         where = "lock-in-wrong-place" if p.endswith("Breadlog.lock") else ("out-of-scope-path-" + kind)
         v.append((where, {"path": p, "what": what}))
-    opened = set()
-    for o in (r.shim or []):
-        if o["kind"] in ("openr", "openw") and o["path"].startswith(root + "/"):
-            opened.add(os.path.normpath(os.path.relpath(os.path.normpath(o["path"]), root)))
+    opened = set(opened_list)
     # the config file, the lock next to it (and its scratch name while it is being replaced) and TMPDIR are legitimately opened
     # (a scratch file the run creates itself - wherever it chooses to put it - did not exist before and is not "a file that was read";
     #  whether scratch files are cleaned up is C08's business, whether anything persists is covered by the snapshot diff above)
@@ -133,10 +143,7 @@ def work(job):
         v.append(("out-of-scope-file-read", {"paths": read_out_of_scope[:4]}))
     if scope:
         if mode == "check":
-            reported = set()
-            for path, line, col in r.missing():
-                ap = os.path.normpath(path if os.path.isabs(path) else os.path.join(cwd, path))
-                reported.add(os.path.relpath(ap, root))
+            reported = set(reported_list)
             if reported - scope:
                 v.append(("out-of-scope-file-reported", {"paths": sorted(reported - scope)[:4]}))
             if scope - reported:
